@@ -176,8 +176,10 @@ class Point2D(object):
         Moves the current point to another position
         Doesn't create a copy
         """
-        self._x += vector[0]
-        self._y += vector[1]
+        new_x = self._x + vector[0]
+        new_y = self._y + vector[1]
+        self._x = new_x
+        self._y = new_y
         return self
 
     def rotate(self, angle: float) -> Point2D:
@@ -194,10 +196,15 @@ class Point2D(object):
         return self
 
     def scale(self, xscale: float, yscale: float) -> Point2D:
+        if isinstance(xscale, str) or isinstance(yscale, str):
+            raise TypeError
         float(xscale)
         float(yscale)
-        self._x *= xscale
-        self._y *= yscale
+        # Compute both before assigning: a failure leaves the point as it was
+        new_x = self._x * xscale
+        new_y = self._y * yscale
+        self._x = new_x
+        self._y = new_y
         return self
 
 
